@@ -5,8 +5,15 @@
    laws of locations: Get after Set returns the value written, and Set changes nothing at any
    location disjoint from the one written.  That the Go closures capture (parent map, key) /
    (slice, index) — i.e. that Go's Set is set_loc at the model's location — is tied by the
-   correspondence check (sentinel Set + document diff for every accessor). *)
+   correspondence check (sentinel Set + document diff for every accessor).
+   From the path TEXT (AccText.v): C13_accessor_from_text — the path that spells a location of the document (names in
+   any spelling, decimal indexes) returns in accessor mode exactly one settable accessor whose location is that
+   location, which holds the returned value; writing there is read back and changes nothing at any disjoint location.
+   C13_function_outputs_from_text — every result of steps followed by filter functions is an accessor without a
+   location (Set nil). *)
 From JP Require Import Eval WF Verdict EvalInv1 EvalInv3 EvalInv4 EvalTop.
+From JP Require Import Json Text Tree Grammar Actions KeyDefs ChainParse ChainAddr FunParse FunAddr AccText.
+From Coq Require Import List NArith ZArith String. Import ListNotations.
 
 Section C13.
   Variable ffun : string -> value -> option value.
@@ -35,3 +42,37 @@ Theorem C13_set_frame : forall p q v w, disjoint p q -> get_loc (set_loc v p w) 
 Proof. exact get_set_other. Qed.
 Print Assumptions C13_get_after_set.
 Print Assumptions C13_set_frame.
+
+Theorem C13_accessor_from_text : forall cfg parse_float regex_ok ffun afun regex_match,
+  (forall f v w, small v -> ffun f v = Some w -> small w) ->
+  (forall f l w, Forall small l -> afun f l = Some w -> small w) ->
+  cfg_accessor cfg = true ->
+  forall s r doc v st, forallb step_ok (s :: r) = true -> no_wild (s :: r) = true -> small doc -> ok st ->
+  nav_chain doc (s :: r) = Some v ->
+  let p := map step_loc (s :: r) in
+  exists t, parse_with cfg parse_float regex_ok jsonpath_grammar (chain_path (map RPlain (s :: r))) = ParseOk t /\
+            fst (eval_run ffun afun regex_match t doc st) = OOk [RAcc true (Some p) v] /\
+            get_loc doc p = Some v /\
+            (forall w, get_loc (set_loc doc p w) p = Some w) /\
+            (forall w q, disjoint p q -> get_loc (set_loc doc p w) q = get_loc doc q).
+Proof. exact accessor_at_location. Qed.
+Print Assumptions C13_accessor_from_text.
+
+Theorem C13_function_outputs_from_text : forall cfg parse_float regex_ok ffun afun regex_match,
+  (forall f v w, small v -> ffun f v = Some w -> small w) ->
+  (forall f l w, Forall small l -> afun f l = Some w -> small w) ->
+  cfg_accessor cfg = true ->
+  forall x r f fs doc st, forallb rstep_ok (x :: r) = true -> forallb fname_ok (f :: fs) = true ->
+  forallb (fun_known cfg) (f :: fs) = true -> small doc -> ok st ->
+  exists t, parse_with cfg parse_float regex_ok jsonpath_grammar (chain_fun_path (x :: r) (f :: fs)) = ParseOk t /\
+            forall rs, fst (eval_run ffun afun regex_match t doc st) = OOk rs -> Forall (fun x0 => exists w, x0 = RAcc false None w) rs.
+Proof. exact function_outputs_not_settable. Qed.
+Print Assumptions C13_function_outputs_from_text.
+
+Example C13_from_text_example :
+  let doc := VObj [("a", VArr [VNum (num_of_Z 1); VObj [("b c", VStr "x")]])]%string in
+  let steps := [SDot [97%N]; SIdx [49%N]; SBr 39%N [98%N; 32%N; 99%N]] in
+  forallb step_ok steps = true /\ no_wild steps = true /\ nav_chain doc steps = Some (VStr "x") /\
+  map step_loc steps = [PKey "a"; PIdx 1%Z; PKey "b c"]%string /\
+  chain_path (map RPlain steps) = [36; 46; 97; 91; 49; 93; 91; 39; 98; 32; 99; 39; 93]%N.
+Proof. cbv zeta. repeat split; vm_compute; reflexivity. Qed.
